@@ -105,20 +105,20 @@ theorem mapM_names (f : Char → Except Py.Exc Str)
 
 /-! ### the header-entry discovery loop -/
 
-abbrev HSt := Meta × List TagCall × Bool × List Str
+abbrev HSt := List TagCall × Meta × List Str × Bool
 
 theorem forEachBrk_entries (x : Ext) (tmpl : Bool) (body : Nat × Entry → HSt → Except Py.Exc (PyKit.Step HSt))
-    (hb : ∀ i e m o seen s, body (i, e) (m, o, seen, s) =
-      if (!isHeaderEntry e || e.obsolete) = true then .ok (.next (m, o, seen, s))
-      else if seen = true then .ok (.brk (m, o ++ [tag "duplicate-header-entry" []], seen, s))
+    (hb : ∀ i e m o seen s, body (i, e) (o, m, s, seen) =
+      if (!isHeaderEntry e || e.obsolete) = true then .ok (.next (o, m, s, seen))
+      else if seen = true then .ok (.brk (o ++ [tag "duplicate-header-entry" []], m, s, seen))
       else match entryTags x tmpl i e with
         | none => .error .ValueError
-        | some ts => .ok (.next (buildMeta (parseHeader e.headerText) m, o ++ ts, true, s ++ strayLines (parseHeader e.headerText))))
+        | some ts => .ok (.next (o ++ ts, buildMeta (parseHeader e.headerText) m, s ++ strayLines (parseHeader e.headerText), true)))
     (es : List Entry) (i : Nat) (st : LoopState) (hst : st.crashed = false) (out0 : List TagCall) :
-    erase (PyKit.forEachBrk (HdrPy.enumerateFrom i es) body (buildMeta st.lines [], out0 ++ st.tags, st.seen, strayLines st.lines)) =
+    erase (PyKit.forEachBrk (HdrPy.enumerateFrom i es) body (out0 ++ st.tags, buildMeta st.lines [], strayLines st.lines, st.seen)) =
       if (entryLoop x tmpl i es st).crashed = true then .error ()
-      else .ok (buildMeta (entryLoop x tmpl i es st).lines [], out0 ++ (entryLoop x tmpl i es st).tags,
-                (entryLoop x tmpl i es st).seen, strayLines (entryLoop x tmpl i es st).lines) := by
+      else .ok (out0 ++ (entryLoop x tmpl i es st).tags, buildMeta (entryLoop x tmpl i es st).lines [],
+                strayLines (entryLoop x tmpl i es st).lines, (entryLoop x tmpl i es st).seen) := by
   induction es generalizing i st with
   | nil => simp [HdrPy.enumerateFrom, PyKit.forEachBrk, entryLoop, hst]
   | cons e es ih =>
@@ -139,17 +139,17 @@ theorem forEachBrk_entries (x : Ext) (tmpl : Bool) (body : Nat × Entry → HSt 
           exact this
 
 theorem forEachBrk_entries' (x : Ext) (tmpl : Bool) (body : Nat × Entry → HSt → Except Py.Exc (PyKit.Step HSt))
-    (hb : ∀ i e m o seen s, body (i, e) (m, o, seen, s) =
-      if (!isHeaderEntry e || e.obsolete) = true then .ok (.next (m, o, seen, s))
-      else if seen = true then .ok (.brk (m, o ++ [tag "duplicate-header-entry" []], seen, s))
+    (hb : ∀ i e m o seen s, body (i, e) (o, m, s, seen) =
+      if (!isHeaderEntry e || e.obsolete) = true then .ok (.next (o, m, s, seen))
+      else if seen = true then .ok (.brk (o ++ [tag "duplicate-header-entry" []], m, s, seen))
       else match entryTags x tmpl i e with
         | none => .error .ValueError
-        | some ts => .ok (.next (buildMeta (parseHeader e.headerText) m, o ++ ts, true, s ++ strayLines (parseHeader e.headerText))))
+        | some ts => .ok (.next (o ++ ts, buildMeta (parseHeader e.headerText) m, s ++ strayLines (parseHeader e.headerText), true)))
     (es : List Entry) (out0 : List TagCall) :
-    erase (PyKit.forEachBrk (HdrPy.enumerateFrom 0 es) body (([] : Meta), out0, false, [])) =
+    erase (PyKit.forEachBrk (HdrPy.enumerateFrom 0 es) body (out0, ([] : Meta), [], false)) =
       if (entryLoop x tmpl 0 es ⟨[], [], false, false⟩).crashed = true then .error ()
-      else .ok (buildMeta (entryLoop x tmpl 0 es ⟨[], [], false, false⟩).lines [], out0 ++ (entryLoop x tmpl 0 es ⟨[], [], false, false⟩).tags,
-                (entryLoop x tmpl 0 es ⟨[], [], false, false⟩).seen, strayLines (entryLoop x tmpl 0 es ⟨[], [], false, false⟩).lines) := by
+      else .ok (out0 ++ (entryLoop x tmpl 0 es ⟨[], [], false, false⟩).tags, buildMeta (entryLoop x tmpl 0 es ⟨[], [], false, false⟩).lines [],
+                strayLines (entryLoop x tmpl 0 es ⟨[], [], false, false⟩).lines, (entryLoop x tmpl 0 es ⟨[], [], false, false⟩).seen) := by
   have := forEachBrk_entries x tmpl body hb es 0 ⟨[], [], false, false⟩ rfl out0
   simpa [buildMeta, strayLines] using this
 
@@ -311,8 +311,8 @@ theorem check_headers_eq (x : Ext) (entries : List Entry) (tmpl : Bool) (out : L
   generalize hfe : PyKit.forEachBrk _ _ _ = r
   have hloop : erase r =
       if (entryLoop x tmpl 0 entries ⟨[], [], false, false⟩).crashed = true then .error ()
-      else .ok (buildMeta (entryLoop x tmpl 0 entries ⟨[], [], false, false⟩).lines [], out ++ (entryLoop x tmpl 0 entries ⟨[], [], false, false⟩).tags,
-                (entryLoop x tmpl 0 entries ⟨[], [], false, false⟩).seen, strayLines (entryLoop x tmpl 0 entries ⟨[], [], false, false⟩).lines) := by
+      else .ok (out ++ (entryLoop x tmpl 0 entries ⟨[], [], false, false⟩).tags, buildMeta (entryLoop x tmpl 0 entries ⟨[], [], false, false⟩).lines [],
+                strayLines (entryLoop x tmpl 0 entries ⟨[], [], false, false⟩).lines, (entryLoop x tmpl 0 entries ⟨[], [], false, false⟩).seen) := by
     rw [← hfe]
     clear hfe
     refine forEachBrk_entries' x tmpl _ ?hb entries out
